@@ -1,5 +1,11 @@
-(* Properties_C16.v — disk cache crash consistency (rock). Statements only; proofs in DiskcrashProofs.v. *)
-Require Import SquidV.Bytes SquidV.DiskcrashModel SquidV.DiskcrashProofs.
+(* Properties_C16.v — disk cache crash consistency (rock). Statements only; proofs in DiskcrashProofs.v and
+   DiskcrashSweep.v.  Vocabulary (DiskcrashModel.v / DiskcrashProofs.v):
+     sessions_of N P ops        the slot chains the running cache (lowest-free allocator, map) gives the stores of ops
+     hit_after N P ss n torn k  what a request for key k gets after: first n slot writes of ss on disk (+ torn
+                                bytes of the next one), Rock::Rebuild, lookup, chain walk, swap-in checks
+     completed P ss n s         all writes of session s are among the first n
+     crash_consistent           every hit is the full stream of a completed session with that key *)
+Require Import SquidV.Bytes SquidV.DiskcrashModel SquidV.DiskcrashProofs SquidV.DiskcrashSweep.
 Local Open Scope Z_scope.
 
 (* The full statement ("every hit after a crash at any write boundary is the complete stream of one version whose
@@ -15,3 +21,46 @@ Theorem C16_rock_torn_write_hit_is_complete_version_refuted :
   exists N P ops n t, ~ crash_consistent N P (sessions_of N P ops) n (Some t).
 Proof. exact torn_crash_consistent_refuted. Qed.
 Print Assumptions C16_rock_torn_write_hit_is_complete_version_refuted.
+
+(* PARTIAL (what is missing: slot reuse, torn writes, ufs): for ALL workloads whose stores write every slot at most
+   once (distinct filenos, distinct object ids, any sizes, any slot ids the allocator may hand out) and ALL crash
+   points at write boundaries, every hit after recovery is the complete stream of a session with that key whose
+   last write completed before the crash. *)
+Theorem C16_rock_crash_consistent_write_once_partial :
+  forall N P ops, write_once N P (sessions_of N P ops) ->
+  forall n, crash_consistent N P (sessions_of N P ops) n None.
+Proof. intros N P ops H. exact (write_once_crash_consistent N P _ H). Qed.
+Print Assumptions C16_rock_crash_consistent_write_once_partial.
+
+(* ... and nothing that was completely written is lost by the crash (same hypotheses): *)
+Theorem C16_rock_completed_entries_served_after_crash_write_once_partial :
+  forall N P ops, write_once N P (sessions_of N P ops) ->
+  forall n s, completed P (sessions_of N P ops) n s ->
+  hit_after N P (sessions_of N P ops) n None (s_key s) = Some (full_stream s).
+Proof. intros N P ops H. exact (write_once_completed_served N P _ H). Qed.
+Print Assumptions C16_rock_completed_entries_served_after_crash_write_once_partial.
+
+(* PARTIAL, bounded (exhaustive vm_compute sweep): in the family of ALL 41371 workloads of at most 4 operations
+   (store of a fresh object of 1..3 slots under one of two keys, purge of a key; 8 slots of 2 payload bytes) and
+   ALL crash points at write boundaries, with slot reuse, purges and same-key overwrites: whenever no same-key
+   overwrite is in flight at the crash, every hit is the full stream of a completely written session with that
+   key.  (The refutation above shows the hypothesis cannot be dropped.) *)
+Theorem C16_rock_crash_consistent_unless_overwrite_in_flight_bounded_partial :
+  forall ops, In ops (fam_workloads 4 1) ->
+  let ss := sessions_of 8 2 ops in
+  forall n, (n <= length (all_writes 2 ss))%nat ->
+  overwrite_inflight 2 ss n = false ->
+  forall k, In k fam_keys ->
+  forall c, hit_after 8 2 ss n None k = Some c ->
+  exists s, In s ss /\ completed_b 2 ss n s = true /\ s_key s = k /\ c = full_stream s.
+Proof. exact sweep_sound. Qed.
+Print Assumptions C16_rock_crash_consistent_unless_overwrite_in_flight_bounded_partial.
+
+(* the hypotheses are satisfiable and the conclusions not vacuous *)
+Example C16_ex_write_once : write_once 8 4 (sessions_of 8 4 ex_ops).
+Proof. exact ex_write_once. Qed.
+Example C16_ex_hits_after_crash :
+  map (fun k => match hit_after 8 4 (sessions_of 8 4 ex_ops) 5 None k with Some c => Some (segments c []) | None => None end)
+      [(1, 0); (2, 0); (3, 0)]
+  = [Some [(1, 0, 10)]; Some [(2, 0, 3)]; None].
+Proof. exact ex_hits_after_crash. Qed.
